@@ -89,8 +89,10 @@ fn gen_case(rng: &mut Rng, shapes: &[query::Tree]) -> Vec<String> {
             ops.push(format!("adv {p} {}", t.unparse()));
         } else if r < 92 {
             ops.push("flush".into());
-        } else if r < 95 {
+        } else if r < 94 {
             ops.push(format!("crashload {}", rng.below(6)));
+        } else if r < 95 {
+            ops.push(format!("failflush {}", rng.below(7)));
         } else if r < 97 {
             ops.push("reload".into());
         } else {
@@ -149,21 +151,29 @@ fn absorb(report: &mut Report, tot: &mut Totals, ops: &[String], res: CaseResult
         let (what, m, i) = r2.disagreements.first().cloned().unwrap_or_else(|| res.disagreements[0].clone());
         report.disagreement(&what, &small, &m, &i);
     }
-    if res.oracle.iter().all(|o| o.0 == world::KNOWN_STALE) && report.histogram.contains_key("known:stale") {
-        // the known finding is reported once (shrunk); further manifestations are only counted
-        if !res.oracle.is_empty() {
-            report.hit("known:stale");
+    let is_known = |k: &str| k == world::KNOWN_STALE || k == world::KNOWN_RESURRECT;
+    // a known finding is reported once (shrunk); further manifestations are only counted
+    let fresh: Option<String> = res
+        .oracle
+        .iter()
+        .find(|o| !is_known(&o.0))
+        .or_else(|| res.oracle.iter().find(|o| !report.histogram.contains_key(&format!("known:{}", o.0))))
+        .map(|o| o.0.clone());
+    for o in &res.oracle {
+        if is_known(&o.0) && Some(&o.0) != fresh.as_ref() {
+            report.hit(&format!("known:{}", o.0));
         }
-    } else if let Some((key, _, _, _)) = res.oracle.iter().find(|o| o.0 != world::KNOWN_STALE).or(res.oracle.first()).cloned() {
-        if key == world::KNOWN_STALE {
-            report.hit("known:stale");
+    }
+    if let Some(key) = fresh {
+        if is_known(&key) {
+            report.hit(&format!("known:{key}"));
         }
         let small = shrink(ops.to_vec(), |cand| run_case(cand, None).oracle.iter().any(|o| o.0 == key), 300);
         let r2 = run_case(&small, None);
         let (key, what, exp, obs) = r2.oracle.iter().find(|o| o.0 == key).cloned().unwrap_or_else(|| res.oracle[0].clone());
         report.oracle_failure(&key, &what, &small, &exp, &obs);
         for o in res.oracle.iter().skip(1) {
-            if o.0 != key && o.0 != world::KNOWN_STALE {
+            if o.0 != key && !is_known(&o.0) {
                 report.oracle_failure(&o.0, &o.1, ops, &o.2, &o.3);
             }
         }
@@ -224,7 +234,7 @@ fn main() {
     }
 
     // ---- random histories
-    let n_cases = args.budget(700, 60_000);
+    let n_cases = args.budget(700, 160_000);
     for i in 0..n_cases {
         let mut rng = Rng::for_case(args.seed, i);
         let ops = gen_case(&mut rng, &shapes);
